@@ -6,7 +6,11 @@ pub mod adtree;
 pub mod c01;
 pub mod c02;
 pub mod c03;
+pub mod c04;
+pub mod c05;
+pub mod c06;
 pub mod c07;
+pub mod c08;
 pub mod c17;
 pub mod c18;
 pub mod c19;
@@ -16,7 +20,11 @@ pub fn make(id: &str) -> Option<Box<dyn Prop>> {
         "C01" => Some(Box::new(c01::C01::new())),
         "C02" => Some(Box::new(c02::C02::new())),
         "C03" => Some(Box::new(c03::C03::new())),
+        "C04" => Some(Box::new(c04::C04::new())),
+        "C05" => Some(Box::new(c05::C05::new())),
+        "C06" => Some(Box::new(c06::C06::new())),
         "C07" => Some(Box::new(c07::C07::new())),
+        "C08" => Some(Box::new(c08::C08::new())),
         "C17" => Some(Box::new(c17::C17::new())),
         "C18" => Some(Box::new(c18::C18::new())),
         "C19" => Some(Box::new(c19::C19::new())),
